@@ -68,6 +68,10 @@ def _evaluate2(case, stages, viols, info):
     for method in methods:
         with dask.config.set({"dataframe.shuffle.method": method}):
             try:
+                if method != "tasks":
+                    # operations that resolve the shuffle method when they are built (shuffle()) are rebuilt under it
+                    q = O.build(tables.source(case["src"]), ops, method=method)
+                    expr = q.expr
                 ref_plan = expr.lower_completely()
                 ref = run_plan(ref_plan, lower=False)
                 executions += 1
